@@ -274,6 +274,32 @@ func runC06(c *Ctx) {
 					}
 				}
 				R.Check(okTTL, "R06.1", key+"/ttl", pos, fn, tf+" = "+desc+" (SendProbe's ttl through conversions only)", tf+" of the probe is "+desc+": it must be SendProbe's ttl, through conversions only")
+				// R06.7 version and protocol number agree with the layers that follow
+				wantVer := map[string]string{"IPv4": "4", "IPv6": "6"}[ll.kind]
+				ver := ll.fields["Version"]
+				R.Check(ver != nil && ver.IsConst(wantVer), "R06.7", key+"/version", pos, fn, "IP version field = "+wantVer, fmt.Sprintf("IP version field of an %s probe is %v", ll.kind, ver))
+				protoField := map[string]string{"IPv4": "Protocol", "IPv6": "NextHeader"}[ll.kind]
+				wantProto := map[string]string{"TCP": "6", "UDP": "17", "ICMPv4": "1", "ICMPv6": "58"}
+				var transports []string
+				for _, other := range lits {
+					if other.fn == ll.fn && wantProto[other.kind] != "" {
+						if (ll.kind == "IPv4" && other.kind == "ICMPv6") || (ll.kind == "IPv6" && other.kind == "ICMPv4") {
+							continue
+						}
+						transports = append(transports, other.kind)
+					}
+				}
+				if pv := ll.fields[protoField]; pv != nil && len(transports) > 0 {
+					okp := false
+					for _, tk := range transports {
+						if pv.StripConv().IsConst(wantProto[tk]) {
+							okp = true
+						}
+					}
+					R.Check(okp, "R06.7", key+"/protocol", pos, fn, protoField+" = "+pv.String()+" matches the transport layer ("+strings.Join(transports, ",")+")", protoField+" of the probe is "+pv.String()+" but the packet carries a "+strings.Join(transports, "/")+" layer: the probe is not well formed")
+				} else if len(transports) > 0 {
+					R.Fail("R06.7", key+"/protocol", pos, fn, protoField+" is not set on the IP layer")
+				}
 				// R06.3 addresses
 				for fld, role := range map[string]string{"DstIP": roles.TargetAddr, "SrcIP": roles.LocalAddr} {
 					for _, lt := range ll.lifted[fld] {
